@@ -367,9 +367,10 @@ B('C12', 'new lazy import of a theory-loading module', BASIC,
   "    # Load all imported theories\n    depend_list = get_import_order(cache['imports'], username)\n\n    with theory.fresh_theory():",
   "    # Load all imported theories\n    depend_list = get_import_order(cache['imports'], username)\n    if filename == 'int':\n        from data import integer\n\n    with theory.fresh_theory():", 'C12.L1', 'import(data.integer)')
 B('C12', 'marker written before parsing', BASIC,
-  "        # Use this theory to parse the content of current theory\n        data = load_json_data(filename, username)",
-  "        # Use this theory to parse the content of current theory\n        cache['timestamp'] = timestamp\n        data = load_json_data(filename, username)", 'C12.L2', 'marker-last')
-B('C12', 'username not forwarded to the cycle check', BASIC, 'check_topological_sort(username)', 'check_topological_sort()', 'C12.L3', 'load_metadata')
+  "        # Use this theory to parse the content of current theory\n        content = []",
+  "        # Use this theory to parse the content of current theory\n        cache['timestamp'] = timestamp\n        content = []", 'C12.L2', 'marker-last')
+B('C12', 'username not forwarded to the cycle check', BASIC,
+  '    # Immediately check for topological order.\n    check_topological_sort(username)', '    # Immediately check for topological order.\n    check_topological_sort()', 'C12.L3', 'load_metadata')
 B('C12', 'username not forwarded when loading imports', BASIC,
   '            prev_cache = load_theory_cache(prev_name, username)\n            for item in prev_cache[\'content\']:\n                if item.error is None:\n                    theory.thy.unchecked_extend(item.get_extension())\n\n        # Use this theory',
   '            prev_cache = load_theory_cache(prev_name)\n            for item in prev_cache[\'content\']:\n                if item.error is None:\n                    theory.thy.unchecked_extend(item.get_extension())\n\n        # Use this theory', 'C12.L3', 'load_theory_cache')
@@ -471,3 +472,28 @@ B('C08', 'unify identifies variables of different kinds', INF,
 N('C08', 'unify same-kind shortcuts merged correctly', INF,
   '        elif T1.is_tvar() and T2.is_tvar() and T1.name == T2.name:\n            return\n\n        elif T1.is_stvar() and T2.is_stvar() and T1.name == T2.name:\n            return',
   '        elif (T1.is_tvar() and T2.is_tvar() or T1.is_stvar() and T2.is_stvar()) and T1.name == T2.name:\n            return')
+
+# ------------------------------------------------------------------------------------------- rules added after the second seeded round
+B('C09', 'eta-contraction tests top-level arguments only', 'logic/matcher.py',
+  'if inst_t.is_comb() and inst_t.arg == v and v not in inst_t.fun.get_vars():', 'if inst_t.is_comb() and inst_t.arg == v and v not in inst_t.fun.args:', 'C09.N4', 'eta-contraction')
+N('C09', 'eta-contraction freeness through occurs_var', 'logic/matcher.py',
+  'if inst_t.is_comb() and inst_t.arg == v and v not in inst_t.fun.get_vars():', 'if inst_t.is_comb() and inst_t.arg == v and not inst_t.fun.occurs_var(v):')
+B('C10', 'normaliser memo stores results obtained under conditions', 'logic/auto.py',
+  '    if not pts:\n        norm_record[t] = res_pt\n    return res_pt', '    norm_record[t] = res_pt\n    return res_pt', 'C10.V4', 'memo(norm_record)')
+N('C10', 'solver memo also consulted when conditions are supplied (a condition-free proof is still valid)', 'logic/auto.py',
+  '    if not pts and goal in solve_record:', '    if goal in solve_record:')
+B('C11', 'disjointness fast path for ground types', 'server/items.py',
+  '    if T1.is_tconst() and T2.is_tconst():\n        if T1.name != T2.name or len(T1.args) != len(T2.args):',
+  '    if not T1.get_tvars():\n        return T1 != T2\n    if T1.is_tconst() and T2.is_tconst():\n        if T1.name != T2.name or len(T1.args) != len(T2.args):', 'C11.D4', 'types_disjoint')
+B('C12', 'imported theories taken from the cache without revalidation', 'logic/basic.py',
+  "    theory.thy = theory.EmptyTheory()\n    for prev_name in depend_list:\n        prev_cache = load_theory_cache(prev_name, username)",
+  "    theory.thy = theory.EmptyTheory()\n    for prev_name in depend_list:\n        prev_cache = theory_cache[username][prev_name]", 'C12.L6', 'load_theory')
+B('C12', 'imports not refreshed when a file is re-read', 'logic/basic.py',
+  "    if cache['imports'] != data['imports']:\n        cache['imports'] = data['imports']\n        check_topological_sort(username)\n", '', 'C12.L7', 'imports-refreshed')
+B('C13', 'intros arguments updated in place', 'server/method.py',
+  "                        item.args = [exists_prop] + item.args", "                        item.args.insert(0, exists_prop)", 'C13.A6', 'exists_elim')
+B('C18', 'integer rounding through float division', 'smt/veriT/la_generic.py',
+  "                if c > 0 and c % k != 0:\n                    t = k * (c // k + 1)", "                if c > 0 and c % k != 0:\n                    t = k * (int(c / k) + 1)", 'C18.R4', 'LAGenericMacro.eval')
+B('C19', 'sign of a constant tested before the fraction test', 'integral/expr.py',
+  "            if isinstance(self.val, Fraction) and self.val.denominator != 1:\n                return op_priority['/']\n            elif self.val < 0:\n                # return 80  # priority of uminus\n                return 74",
+  "            if self.val < 0:\n                # return 80  # priority of uminus\n                return 74\n            elif isinstance(self.val, Fraction) and self.val.denominator != 1:\n                return op_priority['/']", 'C19.E3', 'fraction-constant')
